@@ -50,7 +50,7 @@ func (l *Line) Insert(pos int, chars ...rune) {
 
 	switch {
 	case l.Len() == 0:
-		*l = chars
+		*l = append([]rune{}, chars...)
 	case pos < l.Len():
 		forward := string((*l)[pos:])
 		cut := string(append((*l)[:pos], chars...))
